@@ -4,6 +4,9 @@ import ClipVerif.Model.Simplify
 import ClipVerif.Model.PIP
 import ClipVerif.Model.Lists
 import ClipVerif.Model.Wind
+import ClipVerif.Model.Vertex
+import ClipVerif.Model.Out
+import ClipVerif.Model.Tree
 /-
 Correspondence side of the line protocol: `model <name> …` evaluates a hand model, `gen <fn> …`
 evaluates a generated function; both print the result in a canonical form that the harness
@@ -30,6 +33,24 @@ def takeEdges : Toks → Option (List Active)
     (takeEdges rest).map (fun l =>
       ({ windDx := dx, windCount := wc, windCount2 := wc2, localMin := { PolyType := pt.toNat, IsOpen := op != 0 } } : Active) :: l)
   | _ => none
+
+/-- records: owner splitsNil nSplits splits… hasPts left top right bottom -/
+def takeRecsF : Nat → Toks → Option (List (Model.ORec × Rect64))
+  | _, [] => some []
+  | 0, _ => none
+  | f+1, owner :: snil :: ns :: rest =>
+    let k := ns.toNat
+    let sp := (rest.take k).map Int.toNat
+    match rest.drop k with
+    | hp :: l :: t :: r :: b :: rest' =>
+      (takeRecsF f rest').map fun tl =>
+        ({ owner := if owner < 0 then none else some owner.toNat,
+           splits := if snil != 0 then none else some sp,
+           hasPts := hp != 0 },
+         (⟨Int64.ofInt l, Int64.ofInt t, Int64.ofInt r, Int64.ofInt b⟩ : Rect64)) :: tl
+    | _ => none
+  | _, _ => none
+def takeRecs (ts : Toks) : Option (List (Model.ORec × Rect64)) := takeRecsF ts.length ts
 
 def model (name : String) (ts : Toks) : String :=
   match name, ts with
@@ -81,6 +102,50 @@ def model (name : String) (ts : Toks) : String :=
       let newRecs := if r.2.2.1 == Model.IxAction.localMaxMin || r.2.2.1 == Model.IxAction.localMin then 1 else 0
       s!"{r.1.windCount} {r.1.windCount2} {r.2.1.windCount} {r.2.1.windCount2} {b r.2.2.2.1} {b r.2.2.2.2} {newRecs}"
     | _ => "parse-error"
+  | "vertex", isOpen :: rest =>
+    match takePath rest with
+    | some (p, []) =>
+      match Model.vertexRing (toP64 p) (isOpen != 0) with
+      | none => "none"
+      | some r =>
+        let fl := " ".intercalate (r.flags.toList.map toString)
+        let mn := " ".intercalate (r.minima.map toString)
+        s!"{showPath r.pts.toList} | {fl} | {mn}"
+    | _ => "parse-error"
+  | "clean", preserve :: rest =>
+    match takePath rest with
+    | some (p, []) =>
+      let r := Model.cleanCollinearLoop (preserve != 0) (toP64 p)
+      let ring := r.1.rotateLeft r.2       -- the ring read from outrec.pts
+      let n := ring.length
+      -- `fixSelfIntersects` (not modelled) acts when two next-but-one edges cross: no comparison then
+      let crossing := n ≥ 4 && (List.range n).any fun i =>
+        segsIntersect ring[(i + n - 1) % n]! ring[i]! ring[(i + 1) % n]! ring[(i + 2) % n]! false
+      if crossing then "skip" else showPath ring
+    | _ => "parse-error"
+  | "build", rev :: isOpen :: rest =>
+    match takePath rest with
+    | some (p, []) =>
+      match Model.buildPath (toP64 p) (rev != 0) (isOpen != 0) with
+      | some q => showPath q
+      | none => "false"
+    | _ => "parse-error"
+  | "tree", ts =>
+    match takeRecs ts with
+    | some recs =>
+      let t : Model.Table := (recs.map (·.1)).toArray
+      let rects := (recs.map (·.2)).toArray
+      let g : Model.Geo := {
+        bcontains := fun a c => Rect64_Contains rects[a]! rects[c]!,
+        -- ring a lies strictly inside ring c (the probe uses rectangles that are nested with a
+        -- margin or disjoint, for which `path1InsidePath2` is exactly this)
+        inside := fun a c =>
+          let ra := rects[a]!; let rc := rects[c]!
+          decide (rc.left < ra.left) && decide (ra.right < rc.right) && decide (rc.top < ra.top) && decide (ra.bottom < rc.bottom) }
+      let r := Model.buildTree g t
+      " ".intercalate (r.toList.map fun o =>
+        if !o.placed then "-2" else match o.parent with | some p => toString p | none => "-1")
+    | none => "parse-error"
   | _, _ => "parse-error model"
 
 def i64 (i : Int) : Int64 := Int64.ofInt i
